@@ -111,6 +111,8 @@ class ConfigList(ComposedNode, list):
         self._children = { ((idx+1) if idx >= index else idx): value for idx, value in self._children.items() }
         value = ComposedNode.ayns.set_child(self, index, value)
         list.insert(self, index, value)
+        # keep the child map in list order (set_child has just added the new index last)
+        self._children = dict(enumerate(list.__iter__(self)))
 
     if not utils.python_is_at_least(3, 7):
         # for python < 3.7 (i.e., 3.6 and older)
